@@ -174,6 +174,10 @@ main (void)
           for (int i = 0; i < 64; i++) { k64[i] = (k[i / 8] >> (7 - i % 8)) & 1; b64[i] = (b[i / 8] >> (7 - i % 8)) & 1; }
           memcpy (c64, b64, 64);
           old_setkey (k64); old_encrypt (b64, 0);
+          /* a glibc-era caller's object: recycled memory with only 'initialized' (the last word then) cleared */
+          memset (big, (k[0] & 1) ? 0xA5 : 0, GLIBC_CRYPT_DATA_SIZE);
+          memset (big + GLIBC_CRYPT_DATA_SIZE - 16, 0, 16);
+          memset (big + 32768 - 1024, 0, 1024);
           old_setkey_r (k64, big); old_encrypt_r (c64, 0, big);
           if (memcmp (b64, c64, 64)) VIOL ("encrypt and encrypt_r disagree");
           printf ("D e=");
